@@ -673,6 +673,31 @@ func (env *Env) callExpr(e *ECall) V {
 		argc(2)
 		a, b := env.eval(e.Args[0]), env.eval(e.Args[1])
 		return boolV(and(eq(a.T[0], b.T[0]), not(eq(a.T[0], "0"))))
+	case "mk":
+		// mk(T, f0, f1, ...): a value of struct type T from its field values
+		if len(e.Args) < 1 {
+			panic(specErr("mk needs a type"))
+		}
+		t, err := fc.e.lookupType(typeArg(e.Args[0]), env.pkg)
+		if err != nil {
+			panic(specErr("%v", err))
+		}
+		st, ok := t.Underlying().(*types.Struct)
+		if !ok || st.NumFields() != len(e.Args)-1 {
+			panic(specErr("mk(%s): %d fields expected", t, st.NumFields()))
+		}
+		out := V{Ty: t}
+		for i := 0; i < st.NumFields(); i++ {
+			fv := env.eval(e.Args[i+1])
+			if fv.C != nil {
+				fv = env.constTo(fv, st.Field(i).Type())
+			}
+			if fv.B != nil {
+				fv = boolV(env.asBool(fv))
+			}
+			out.T = append(out.T, fv.T...)
+		}
+		return out
 	case "prefixof":
 		// r starts where s starts and fits into s's capacity
 		argc(2)
@@ -796,10 +821,16 @@ func (env *Env) callExpr(e *ECall) V {
 		if len(e.Args) != len(f.Params) {
 			panic(specErr("%s expects %d arguments", name, len(f.Params)))
 		}
+		defEnv := env
+		if dp := fc.e.byName[f.Pkg]; f.Pkg != "" && f.Pkg != "?" && dp != nil && dp != env.pkg {
+			cp := *env
+			cp.pkg = dp
+			defEnv = &cp
+		}
 		var args []V
 		for i, a := range e.Args {
 			v := env.eval(a)
-			pt := env.specType(f.Params[i].Ty)
+			pt := defEnv.specType(f.Params[i].Ty)
 			if v.C != nil {
 				v = env.constTo(v, pt)
 			}
@@ -811,15 +842,18 @@ func (env *Env) callExpr(e *ECall) V {
 			}
 			args = append(args, v)
 		}
-		rt := env.specType(f.Ret)
+		rt := defEnv.specType(f.Ret)
 		if f.Body != nil {
 			if env.depth > 40 {
 				panic(specErr("spec function recursion too deep in %s", name))
 			}
 			sub := &Env{fc: fc, vars: map[string]V{}, bound: map[string]V{}, cur: env.cur, old: env.old, oldAc: env.oldAc, pkg: env.pkg, depth: env.depth + 1}
+			if dp := fc.e.byName[f.Pkg]; f.Pkg != "" && f.Pkg != "?" && dp != nil {
+				sub.pkg = dp
+			}
 			for i, p := range f.Params {
 				a := args[i]
-				if pt := env.specType(p.Ty); pt != nil {
+				if pt := defEnv.specType(p.Ty); pt != nil {
 					a.Ty = pt
 				}
 				sub.vars[p.Name] = a
@@ -830,6 +864,14 @@ func (env *Env) callExpr(e *ECall) V {
 			}
 			if r.B != nil {
 				r = boolV(env.asBool(r))
+			}
+			if rt != nil && r.Ty != nil && isInteger(rt) && isInteger(r.Ty) && len(r.T) == 1 &&
+				bvWidth(fc.e.comps(rt)[0].Sort) != bvWidth(fc.e.comps(r.Ty)[0].Sort) {
+				// e.g. a conditional of untyped constants defaulted to int: bring it to the declared result width
+				saveC := fc.c
+				fc.c = &Contract{NoSafety: true}
+				r = fc.convert(r, rt)
+				fc.c = saveC
 			}
 			if rt != nil {
 				r.Ty = rt
@@ -854,7 +896,7 @@ func (env *Env) callExpr(e *ECall) V {
 			}
 		}
 		for i, a := range args {
-			cs := fc.e.comps(env.specType(f.Params[i].Ty))
+			cs := fc.e.comps(defEnv.specType(f.Params[i].Ty))
 			for j := range cs {
 				flat = append(flat, a.T[j])
 				sorts = append(sorts, cs[j].Sort)
